@@ -24,6 +24,8 @@ pub struct Case {
     /// hand the payload directly to global::Client::read (lengths beyond the 15-bit frame limit)
     pub direct: bool,
     pub block: &'static str,
+    /// all the frames of the case are in the client's receive buffer before the first read (one TCP segment)
+    pub coalesced: bool,
 }
 
 pub struct C10 {
@@ -122,20 +124,24 @@ impl Prop for C10 {
             }
         }
         for a in &single {
-            cs.push(Case { pdus: vec![Pdu { updates: a.clone(), long_form: false, first_byte: 0 }], direct: false, block: "one-pdu" });
+            cs.push(Case { pdus: vec![Pdu { updates: a.clone(), long_form: false, first_byte: 0 }], direct: false, coalesced: false, block: "one-pdu" });
         }
         let reduced: Vec<&Vec<Update>> = single.iter().filter(|u| u.len() <= 1).collect();
         for a in &single {
             for b in &reduced {
-                cs.push(Case { pdus: vec![Pdu { updates: a.clone(), long_form: false, first_byte: 0 }, Pdu { updates: (*b).clone(), long_form: true, first_byte: 0 }], direct: false, block: "two-pdus" });
-                cs.push(Case { pdus: vec![Pdu { updates: (*b).clone(), long_form: false, first_byte: 0 }, Pdu { updates: a.clone(), long_form: false, first_byte: 0 }], direct: false, block: "two-pdus" });
+                cs.push(Case { pdus: vec![Pdu { updates: a.clone(), long_form: false, first_byte: 0 }, Pdu { updates: (*b).clone(), long_form: true, first_byte: 0 }], direct: false, coalesced: false, block: "two-pdus" });
+                cs.push(Case { pdus: vec![Pdu { updates: (*b).clone(), long_form: false, first_byte: 0 }, Pdu { updates: a.clone(), long_form: false, first_byte: 0 }], direct: false, coalesced: false, block: "two-pdus" });
+                cs.push(Case { pdus: vec![Pdu { updates: a.clone(), long_form: true, first_byte: 0 }, Pdu { updates: (*b).clone(), long_form: false, first_byte: 0 }], direct: false, coalesced: true, block: "two-pdus-one-segment" });
+                cs.push(Case { pdus: vec![Pdu { updates: (*b).clone(), long_form: true, first_byte: 0 }, Pdu { updates: a.clone(), long_form: false, first_byte: 0 }], direct: false, coalesced: true, block: "two-pdus-one-segment" });
+                cs.push(Case { pdus: vec![Pdu { updates: (*b).clone(), long_form: false, first_byte: 0 }, Pdu { updates: a.clone(), long_form: true, first_byte: 0 }], direct: false, coalesced: true, block: "two-pdus-one-segment" });
             }
         }
         if tier == Tier::Thorough {
             for a in &reduced {
                 for b in &reduced {
                     for c in &single {
-                        cs.push(Case { pdus: vec![Pdu { updates: (*a).clone(), long_form: false, first_byte: 0 }, Pdu { updates: (*b).clone(), long_form: true, first_byte: 0 }, Pdu { updates: c.clone(), long_form: false, first_byte: 0 }], direct: false, block: "three-pdus" });
+                        cs.push(Case { pdus: vec![Pdu { updates: (*a).clone(), long_form: false, first_byte: 0 }, Pdu { updates: (*b).clone(), long_form: true, first_byte: 0 }, Pdu { updates: c.clone(), long_form: false, first_byte: 0 }], direct: false, coalesced: false, block: "three-pdus" });
+                        cs.push(Case { pdus: vec![Pdu { updates: (*a).clone(), long_form: true, first_byte: 0 }, Pdu { updates: (*b).clone(), long_form: false, first_byte: 0 }, Pdu { updates: c.clone(), long_form: true, first_byte: 0 }], direct: false, coalesced: true, block: "three-pdus-one-segment" });
                     }
                 }
             }
@@ -147,7 +153,7 @@ impl Prop for C10 {
                     if tier == Tier::Quick && (i + j + k) % 3 != 0 {
                         continue;
                     }
-                    cs.push(Case { pdus: vec![Pdu { updates: vec![alpha[i].clone(), alpha[j].clone(), alpha[k].clone()], long_form: (i + j) % 2 == 0, first_byte: 0 }], direct: false, block: "three-updates" });
+                    cs.push(Case { pdus: vec![Pdu { updates: vec![alpha[i].clone(), alpha[j].clone(), alpha[k].clone()], long_form: (i + j) % 2 == 0, first_byte: 0 }], direct: false, coalesced: false, block: "three-updates" });
                 }
             }
         }
@@ -158,21 +164,21 @@ impl Prop for C10 {
                     if first_byte != 0 && long_form {
                         continue;
                     }
-                    cs.push(Case { pdus: vec![Pdu { updates: vec![Update::Bitmap(vec![r.clone()])], long_form, first_byte }], direct: false, block: "rect-fields" });
+                    cs.push(Case { pdus: vec![Pdu { updates: vec![Update::Bitmap(vec![r.clone()])], long_form, first_byte }], direct: false, coalesced: false, block: "rect-fields" });
                 }
             }
-            cs.push(Case { pdus: vec![Pdu { updates: vec![fastpath::other_update(fastpath::UPD_PTR_POSITION), Update::Bitmap(vec![r.clone(), rect(9, 4)]), fastpath::other_update(0xC), Update::Bitmap(vec![rect(1, 2)])], long_form: true, first_byte: 0 }], direct: false, block: "rect-fields" });
+            cs.push(Case { pdus: vec![Pdu { updates: vec![fastpath::other_update(fastpath::UPD_PTR_POSITION), Update::Bitmap(vec![r.clone(), rect(9, 4)]), fastpath::other_update(0xC), Update::Bitmap(vec![rect(1, 2)])], long_form: true, first_byte: 0 }], direct: false, coalesced: false, block: "rect-fields" });
         }
         // D: data lengths up to the frame limit, and beyond it by calling the PDU reader directly
         for len in [0x3FF0usize, 0x7F00, 0x7FD0] {
-            cs.push(Case { pdus: vec![Pdu { updates: vec![Update::Bitmap(vec![rect(1, len)])], long_form: true, first_byte: 0 }], direct: false, block: "data-length" });
+            cs.push(Case { pdus: vec![Pdu { updates: vec![Update::Bitmap(vec![rect(1, len)])], long_form: true, first_byte: 0 }], direct: false, coalesced: false, block: "data-length" });
         }
         for len in [0x7FFFusize, 0x8000, 0xFFE0, 0xFFEC] {
-            cs.push(Case { pdus: vec![Pdu { updates: vec![Update::Bitmap(vec![rect(1, len)]), Update::Bitmap(vec![rect(2, 3)])], long_form: true, first_byte: 0 }], direct: true, block: "data-length-direct" });
+            cs.push(Case { pdus: vec![Pdu { updates: vec![Update::Bitmap(vec![rect(1, len)]), Update::Bitmap(vec![rect(2, 3)])], long_form: true, first_byte: 0 }], direct: true, coalesced: false, block: "data-length-direct" });
         }
         // E: many rectangles / many updates
-        cs.push(Case { pdus: vec![Pdu { updates: vec![Update::Bitmap((0..200).map(|k| rect(k, (k % 7) as usize)).collect())], long_form: true, first_byte: 0 }], direct: false, block: "many" });
-        cs.push(Case { pdus: vec![Pdu { updates: (0..300).map(|k| if k % 3 == 0 { Update::Bitmap(vec![rect(k, 2)]) } else { fastpath::other_update((k % 16) as u8) }).collect(), long_form: true, first_byte: 0 }], direct: false, block: "many" });
+        cs.push(Case { pdus: vec![Pdu { updates: vec![Update::Bitmap((0..200).map(|k| rect(k, (k % 7) as usize)).collect())], long_form: true, first_byte: 0 }], direct: false, coalesced: false, block: "many" });
+        cs.push(Case { pdus: vec![Pdu { updates: (0..300).map(|k| if k % 3 == 0 { Update::Bitmap(vec![rect(k, 2)]) } else { fastpath::other_update((k % 16) as u8) }).collect(), long_form: true, first_byte: 0 }], direct: false, coalesced: false, block: "many" });
         self.cases = cs;
         Ok(())
     }
@@ -198,7 +204,7 @@ impl Prop for C10 {
         json!({"idx": idx, "block": c.block, "direct": c.direct, "pdus": brief, "forms": c.pdus.iter().map(|p| (p.long_form, p.first_byte)).collect::<Vec<_>>()})
     }
     fn rule(&self) -> String {
-        "cases = sequences of fast-path output PDUs delivered to a really activated client (raw stack) through RdpClient::read; PDUs of 0..3 updates over an alphabet of 19 updates (bitmap updates with 0,1,2,3 rectangles, with/without compression header, and 13 non-bitmap/unknown update codes); sequences of <=2 (<=3) PDUs; every rectangle field at {0,1,0x7FFF,0xFFFF} one at a time and all-max, depths x flag combinations x data lengths {0,1,2,255,256}, short and long length forms, reserved header bits; data lengths up to the 15-bit frame limit and beyond it (0x7FFF..0xFFEC) through global::Client::read directly. Oracle: callback sequence == reference parser's rectangle list (count, order, nine fields, data). Non-trivial: >= 2 updates in total or a non-default field.".into()
+        "cases = sequences of fast-path output PDUs delivered to a really activated client (raw stack) through RdpClient::read; PDUs of 0..3 updates over an alphabet of 19 updates (bitmap updates with 0,1,2,3 rectangles, with/without compression header, and 13 non-bitmap/unknown update codes); sequences of <=2 (<=3) PDUs, delivered one frame at a time (lock step) and all at once in one segment before the first read (both length forms, so that an empty PDU of either form is followed by more PDUs); every rectangle field at {0,1,0x7FFF,0xFFFF} one at a time and all-max, depths x flag combinations x data lengths {0,1,2,255,256}, short and long length forms, reserved header bits; data lengths up to the 15-bit frame limit and beyond it (0x7FFF..0xFFEC) through global::Client::read directly. Oracle: callback sequence == reference parser's rectangle list (count, order, nine fields, data). Non-trivial: >= 2 updates in total or a non-default field.".into()
     }
     fn assumptions(&self) -> Vec<String> {
         vec!["scope as in the statement: unfragmented, uncompressed updates (fragmentation and compression bits of the update header are 0); numberRectangles consistent with the rectangles present".into()]
@@ -222,7 +228,15 @@ impl Prop for C10 {
         let mut got: Vec<Rect> = vec![];
         let mut want: Vec<Rect> = vec![];
         let mut total_updates = 0;
-        for p in &c.pdus {
+        if c.coalesced {
+            for p in &c.pdus {
+                let payload = fastpath::updates_payload(&p.updates);
+                let long = p.long_form || payload.len() + 2 > 0x7f;
+                conn.sh.borrow_mut().push_to_client(&framing::fastpath(p.first_byte, &payload, long));
+            }
+        }
+        let n_pdus = c.pdus.len();
+        for (pi, p) in c.pdus.iter().enumerate() {
             let payload = fastpath::updates_payload(&p.updates);
             total_updates += p.updates.len();
             match fastpath::expected_events(&payload) {
@@ -241,7 +255,9 @@ impl Prop for C10 {
             } else {
                 let long = p.long_form || payload.len() + 2 > 0x7f;
                 let frame = framing::fastpath(p.first_byte, &payload, long);
-                conn.sh.borrow_mut().push_to_client(&frame);
+                if !c.coalesced {
+                    conn.sh.borrow_mut().push_to_client(&frame);
+                }
                 client.read(&mut cb)
             };
             if let Err(e) = r {
@@ -250,7 +266,7 @@ impl Prop for C10 {
             if conn.sh.borrow().from_client.len() != before {
                 return Outcome::fail("mismatch", "client-wrote-on-fast-path-output", "bytes written while processing output".to_string());
             }
-            if !conn.sh.borrow().to_client.is_empty() {
+            if (!c.coalesced || pi + 1 == n_pdus) && !conn.sh.borrow().to_client.is_empty() {
                 return Outcome::fail("mismatch", "pdu-not-fully-consumed", format!("{} bytes left", conn.sh.borrow().to_client.len()));
             }
         }
